@@ -3004,7 +3004,7 @@ static void handle_define (char *yyt) {
               lexerror ("Macro text too long");
               return;
             }
-          if (!*p && p[-2] == '\\')
+          if (!*p && p >= yytext + 2 && p[-2] == '\\')	/* a continuation line may be empty */
             {
               q -= 2;
               refill ();
@@ -3026,7 +3026,7 @@ static void handle_define (char *yyt) {
               lexerror ("Macro text too long");
               return;
             }
-          if (!*p && p[-2] == '\\')
+          if (!*p && p >= yytext + 2 && p[-2] == '\\')	/* a continuation line may be empty */
             {
               q -= 2;
               refill ();
